@@ -192,6 +192,18 @@ def _dense_case(sh, cI, im, nthreads, case):
         if n_want and (lab.max() != n_want or len(np.unique(lab[lab > 0])) != n_want):
             sh.violation("localmaxlabel:labels-not-1..n", dict(case, nthreads=nt), {"labels": lab})
             break
+        if nt == nthreads[0]:
+            # the same image after a constant was subtracted (background-subtracted data: every pixel NEGATIVE); the levels used here are
+            # small integers and halves, so the subtraction is exact and the order of the pixels - hence the labelling - is the same
+            shift = np.float32(np.ceil(float(im.max())) + 16.0)
+            im_neg = (im - shift).astype(np.float32)
+            if np.array_equal((im_neg + shift).astype(np.float32), im):
+                lab2 = np.full(im.shape, POIS[0][0], np.int32)
+                n2 = cI.localmaxlabel(im_neg, lab2, np.full(im.shape, POIS[0][1], np.int8))
+                if n2 != n or not np.array_equal(lab2, lab):
+                    sh.violation("localmaxlabel:labelling-changes-when-a-constant-is-subtracted-from-the-image", dict(case, nthreads=nt, subtracted=float(shift)),
+                                 {"labels": lab2, "expected": lab})
+                    break
     cI.cimaged11_omp_set_num_threads(1)
     sh.evaluations += 1
     if n_want >= 2 or longest >= 2:
